@@ -1115,6 +1115,65 @@ def gen_erosion_case(rng):
                 mitre=5.0, api=rng.choice(['B', 'S', 'P']), stream='erode')
 
 
+def gen_nested_case(rng):
+    """inputs whose buffer has NESTED shells (PolygonBuilder::findEdgeRingContaining must give every free hole to the innermost
+       containing shell): concentric closed lines at 2..4 radii, island-with-a-lake inside a lake at 2..3 nesting levels, closed lines or
+       small holed polygons inside the holes of larger polygons.  d > 0 small enough that every gap and the innermost hole survive."""
+    def ngon(cx, cy, R, n, rot):
+        pts = [(round(cx + R * math.cos(rot + 2 * math.pi * k / n), 3), round(cy + R * math.sin(rot + 2 * math.pi * k / n), 3)) for k in range(n)]
+        return pts + [pts[0]]
+    levels = rng.choice([2, 2, 3, 4])
+    r0 = rng.uniform(4.0, 12.0)
+    gap = r0 * rng.uniform(0.5, 2.0)
+    cx, cy = rng.uniform(-3, 3), rng.uniform(-3, 3)
+    rings = []
+    Rk = r0
+    n0 = rng.choice([4, 5, 6, 8])
+    inr0 = r0 * math.cos(math.pi / n0)
+    for k in range(levels):
+        n = n0 if k == 0 else rng.choice([4, 5, 6, 8])
+        if k > 0:
+            Rk = (Rk + gap) / math.cos(math.pi / n) + 0.01
+        rings.append(ngon(cx + rng.uniform(-0.05, 0.05) * gap, cy + rng.uniform(-0.05, 0.05) * gap, Rk, n, rng.uniform(0, 2 * math.pi)))
+    d = min(gap * rng.uniform(0.05, 0.42), 0.6 * inr0)
+    shape = rng.choice(['lines', 'lines', 'mpoly', 'coll'])
+    if shape == 'lines' or levels < 2:
+        g = ('MultiLineString', [('LineString', r) for r in rings])
+        kind = 'nested-lines'
+    elif shape == 'mpoly':
+        # rings[-1] shell with lake rings[-2]; inside the lake an island rings[-3] (or rings[0]) with its own lake when there is one more ring
+        if levels == 2:
+            inner = ngon(cx, cy, inr0 * 0.45, n0, 0.3)
+            d = min(d, 0.25 * inr0 * math.cos(math.pi / n0) * 0.45 / 0.45, 0.2 * inr0)
+            polys = [('Polygon', [rings[1], rings[0][::-1]]), ('Polygon', [inner])]
+            # an island without a lake does not exercise the free-hole assignment; give it one when there is room
+            lake = ngon(cx, cy, inr0 * 0.2, n0, 0.3)
+            polys[1] = ('Polygon', [inner, lake[::-1]])
+            d = min(d, 0.08 * inr0)
+        elif levels == 3:
+            polys = [('Polygon', [rings[2], rings[1][::-1]]), ('Polygon', [rings[0], ngon(cx, cy, inr0 * 0.5, n0, 0.1)[::-1]])]
+            d = min(d, 0.3 * inr0 * 0.5 * math.cos(math.pi / n0))
+        else:
+            polys = [('Polygon', [rings[3], rings[2][::-1]]), ('Polygon', [rings[1], rings[0][::-1]])]
+        g = ('MultiPolygon', polys)
+        kind = 'nested-mpoly'
+    else:
+        # a polygon with a lake, and inside the lake closed lines (and their own insides)
+        g = ('GeometryCollection', [('Polygon', [rings[-1], rings[-2][::-1]])] + [('LineString', r) for r in rings[:-2]] +
+             ([('LineString', ngon(cx, cy, inr0 * 0.5, n0, 0.2))] if levels == 2 else []))
+        if levels == 2:
+            d = min(d, 0.12 * inr0)
+        kind = 'nested-coll'
+    scale = rng.choice([1.0, 1.0, 7.3, 1e3, 1e-2])
+    g = G.map_coords(g, lambda p: (p[0] * scale, p[1] * scale))
+    d *= scale
+    c = dict(g=g, kind=kind, mag='scaled', d=d, f=d / input_size(flatten(g)), q=gen_q(rng), cap=CAP_ROUND, join=JOIN_ROUND, mitre=5.0,
+             api=rng.choice(['B', 'S', 'P']), stream='nested')
+    if rng.random() < 0.25:
+        c.update(gen_style(rng)); c['api'] = rng.choice(['S', 'P'])
+    return c
+
+
 # ------------------------------------------------------------------------------------------------ corpus
 def geom_from_json(x):
     return (x[0], None if x[1] is None else (tuple(x[1]) if x[0] == 'Point' else [geom_from_json(y) for y in x[1]] if x[0].startswith('Multi') or x[0] == 'GeometryCollection'
@@ -1280,6 +1339,8 @@ def run(ctx):
             cases.append(c); made += 1
     for _ in range(70 * scale):
         cases.append(gen_erosion_case(rng))
+    for _ in range(45 * scale):
+        cases.append(gen_nested_case(rng))
     # validity of the generated inputs is decided first
     vin = par_lines(ctx, [hexe], ['V|' + G.to_wkt(c['g']) for c in cases], timeout=300)
     nvalid = len(cases)
@@ -1339,8 +1400,8 @@ def run(ctx):
     for c in cases[:3] + lcases[:2]:
         ctx.sample(harness_line(c)[:400])
     # ---- self-check of the generators: every class the proofs and clauses split on must have been drawn
-    need = [('stream', s) for s in ('fillet', 'round', 'neg', 'zero', 'style', 'erode', 'single-sided', 'offset-curve', 'single-sided-curve')] + \
-           [('q', '<=5'), ('q', '6..32')] + [('kind', k) for k in ('point', 'line', 'poly', 'polyh', 'mpoint', 'mline', 'mpoly', 'coll', 'erode-hole', 'erode-shell')] + \
+    need = [('stream', s) for s in ('fillet', 'round', 'neg', 'zero', 'style', 'erode', 'nested', 'single-sided', 'offset-curve', 'single-sided-curve')] + \
+           [('q', '<=5'), ('q', '6..32')] + [('kind', k) for k in ('point', 'line', 'poly', 'polyh', 'mpoint', 'mline', 'mpoly', 'coll', 'erode-hole', 'erode-shell', 'nested-lines', 'nested-mpoly', 'nested-coll')] + \
            [('mag', m) for m in ('grid', 'scaled', 'offset')]
     for key, val in need:
         if dist[key].get(val, 0) == 0:
